@@ -16,13 +16,18 @@ Model of the `cow-bytes` crate: `CowBytes` (`cow-bytes/src/lib.rs`, `macros.rs`)
   `<[u8]>::split_at(n)`, `&s[..n]`, `<&[u8] as Buf>::advance(n)` panic when `n > len`;
   `Bytes::split_to/split_off/advance` panic when `n > len`; `Bytes::truncate(n)` is a no-op when
   `n >= len` (bytes 1.x `bytes.rs`).
+* The model follows the repaired `pbuf.rs` (`/verif/fixes/C20-*.diff`): `truncate` ignores a
+  length that is not smaller than the cached total (the pinned code stored it as the new total),
+  `push` / `insert` do not store an empty `CowBytes` (the pinned code did, so `chunk()` could be
+  empty while bytes remain), and `insert` counts the bytes only after `Vec::insert` succeeded (the
+  pinned code counted them first, so a caught out-of-bounds panic left a wrong total).
 Core Lean only.
 -/
 import Penguin.Basic.Bytes
 
 namespace Penguin
 
-/-- `CowBytes::Temporary(&[u8])` / `CowBytes::Static(Bytes)`, lib.rs:31-36. -/
+/-- `CowBytes::Temporary(&[u8])` / `CowBytes::Static(Bytes)`, lib.rs:32-37. -/
 inductive Tag where
   | temporary | static
 deriving DecidableEq, Repr
@@ -42,19 +47,19 @@ abbrev Res (σ α : Type) := Except (Panic σ) (σ × α)
 
 namespace Seg
 
-/-- `len`, lib.rs:143-146 (`impl_by_delegate!`: `data.len()` / `bytes.len()`). -/
+/-- `len`, lib.rs:143-145 (`impl_by_delegate!`: `data.len()` / `bytes.len()`). -/
 def len (s : Seg) : Nat :=
   match s.tag with
   | .temporary => s.bytes.length
   | .static => s.bytes.length
 
-/-- `is_empty`, lib.rs:148-150. -/
+/-- `is_empty`, lib.rs:147-149. -/
 def isEmpty (s : Seg) : Bool :=
   match s.tag with
   | .temporary => s.bytes.isEmpty
   | .static => s.bytes.isEmpty
 
-/-- `AsRef<[u8]>::as_ref`, lib.rs:81-83 (also `Deref`, lib.rs:91-95, and `Borrow`, lib.rs:51-53). -/
+/-- `AsRef<[u8]>::as_ref`, lib.rs:81-83 (also `Deref`, lib.rs:91-95, and `Borrow`, lib.rs:52-54). -/
 def asRef (s : Seg) : Bytes :=
   match s.tag with
   | .temporary => s.bytes
@@ -137,13 +142,13 @@ def le64 (n : Nat) : Bytes :=
 
 namespace Seg
 
-/-- `PartialEq for CowBytes`, lib.rs:39-41 (`impl_by_as_ref!`: `self.as_ref().eq(other.as_ref())`). -/
+/-- `PartialEq for CowBytes`, lib.rs:40-42 (`impl_by_as_ref!`: `self.as_ref().eq(other.as_ref())`). -/
 def beq (s t : Seg) : Bool := s.asRef == t.asRef
 
-/-- `PartialOrd for CowBytes`, lib.rs:42-44. -/
+/-- `PartialOrd for CowBytes`, lib.rs:43-45. -/
 def partialCmp (s t : Seg) : Option Ordering := some (cmpBytes s.asRef t.asRef)
 
-/-- What `Hash for CowBytes` (lib.rs:54-56, `self.as_ref().hash(state)`) feeds to the hasher:
+/-- What `Hash for CowBytes` (lib.rs:55-57, `self.as_ref().hash(state)`) feeds to the hasher:
     the length prefix of `<[u8] as Hash>::hash`, then the bytes. -/
 def hashInput (s : Seg) : Bytes := le64 s.asRef.length ++ s.asRef
 
@@ -181,7 +186,7 @@ def asRef (c : Chain) : List Seg := c.segs
 /-- `clear`, pbuf.rs:42-47. -/
 def clear (_ : Chain) : Res Chain Unit := .ok (⟨[], 0⟩, ())
 
-/-- `push`, pbuf.rs:119-129: an empty `CowBytes` is not stored. -/
+/-- `push`, pbuf.rs:119-128: an empty `CowBytes` is not stored. -/
 def push (c : Chain) (s : Seg) : Res Chain Unit :=
   if s.isEmpty then .ok (c, ())
   else .ok (⟨c.segs ++ [s], c.cachedLen + s.len⟩, ())
@@ -205,7 +210,7 @@ def remove (c : Chain) (i : Nat) : Res Chain Seg :=
   | none => .error ⟨c⟩
   | some s => .ok (⟨c.segs.eraseIdx i, c.cachedLen - s.len⟩, s)
 
-/-- The `while` loop of `split_off`, pbuf.rs:175-182: the segments before `split_index`, those from
+/-- The `while` loop of `split_off`, pbuf.rs:165-172: the segments before `split_index`, those from
     `split_index` on, and what is left of `remaining`. -/
 def splitScan : List Seg → Nat → List Seg × List Seg × Nat
   | [], r => ([], [], r)
@@ -215,7 +220,7 @@ def splitScan : List Seg → Nat → List Seg × List Seg × Nat
       match splitScan rest (r - s.len) with
       | (f, b, r') => (s :: f, b, r')
 
-/-- `split_off`, pbuf.rs:160-198: the receiver keeps `[0, n)`, `[n, len)` is returned. -/
+/-- `split_off`, pbuf.rs:160-188: the receiver keeps `[0, n)`, `[n, len)` is returned. -/
 def splitOff (c : Chain) (n : Nat) : Res Chain Chain :=
   match splitScan c.segs n with
   | (front, back, rem) =>
@@ -235,7 +240,7 @@ def splitTo (c : Chain) (n : Nat) : Res Chain Chain :=
   | .error p => .error p
   | .ok (front, back) => .ok (back, front)
 
-/-- The `while` loop of `truncate`, pbuf.rs:207-221 (`none`: a `CowBytes::truncate` panicked). -/
+/-- The `while` loop of `truncate`, pbuf.rs:204-217 (`none`: a `CowBytes::truncate` panicked). -/
 def truncScan : List Seg → Nat → Option (List Seg)
   | [], _ => some []
   | s :: rest, r =>
@@ -246,7 +251,7 @@ def truncScan : List Seg → Nat → Option (List Seg)
       | .ok (s', _) => some [s']                           -- `self.data.truncate(truncate_index + 1)`
     else (truncScan rest (r - s.len)).map (s :: ·)
 
-/-- `truncate`, pbuf.rs:195-223: a `len` that is not smaller than the cached total is ignored. -/
+/-- `truncate`, pbuf.rs:195-219: a `len` that is not smaller than the cached total is ignored. -/
 def truncate (c : Chain) (n : Nat) : Res Chain Unit :=
   if n ≥ c.cachedLen then .ok (c, ())
   else
@@ -255,7 +260,7 @@ def truncate (c : Chain) (n : Nat) : Res Chain Unit :=
     | some segs => .ok (⟨segs, n⟩, ())
 
 set_option linter.unusedVariables false in
-/-- The `while cnt > 0` loop of `advance`, pbuf.rs:248-260, on (`data`, `cnt`, `total_remaining_len`). -/
+/-- The `while cnt > 0` loop of `advance`, pbuf.rs:248-259, on (`data`, `cnt`, `total_remaining_len`). -/
 def advLoop (segs : List Seg) (cnt len : Nat) : Except (Panic Chain) Chain :=
   match segs, cnt with
   | segs, 0 => .ok ⟨segs, len⟩
@@ -285,7 +290,7 @@ decreasing_by
     have hdef : by_ = min s.remaining (c + 1) := rfl
     omega
 
-/-- `Buf::advance`, pbuf.rs:241-261: `assert!(cnt <= self.total_remaining_len)`, then the loop. -/
+/-- `Buf::advance`, pbuf.rs:241-260: `assert!(cnt <= self.total_remaining_len)`, then the loop. -/
 def advance (c : Chain) (cnt : Nat) : Res Chain Unit :=
   if cnt > c.cachedLen then .error ⟨c⟩
   else
